@@ -48,6 +48,7 @@ func runC43(w *World, r *Report) {
 	c43TransactionOwner(w, r)
 	c43TransactionDSN(w, r)
 	c43GrantsOfTheCaller(w, r)
+	c43UpdateNeedsUpdateGrant(w, r)
 	r.Rule("R-C43-1", "must-pass-through (edge cut): in each table route handler every statement-executing call (Database.Exec/Query/Begin or an in-package helper that reaches one) is unreachable once the edges {Session.Admin true, Authorized(...) true} are removed", 10)
 	r.Rule("R-C43-2", "operation agreement: every Authorized call passes at least one constant permission, and in a route handler that permission matches the route's HTTP method", 10)
 	r.Rule("R-C43-3", "tables.Authorized: with every granted edge removed and at least one operation requested, no consistent path returns a possibly-true result except through {administrator, unrestricted DSN, permissions not configured}; the grant lookup filters on existing columns user, dsn, table", 2)
@@ -401,6 +402,34 @@ func runC43(w *World, r *Report) {
 
 					if !found {
 						ok2 = false
+					}
+				}
+
+				// a further requirement: another Authorized call of this handler
+				// already asks for the method's own permission (an insert with
+				// ?upsert also needs the update grant)
+				if !ok2 {
+					allInstrs(fn, func(i2 ssa.Instruction) {
+						c2, isCall := i2.(*ssa.Call)
+						if !isCall || c2 == c || calleeFunction(c2.Common()) != authFn {
+							return
+						}
+
+						for _, e := range packedElems(c2.Call.Args[3]) {
+							if s, isC := constString(e); isC {
+								for _, wnt := range want {
+									if permName[s] == wnt {
+										ok2 = true
+									}
+								}
+							}
+						}
+					})
+
+					if ok2 {
+						r.Discharge("R-C43-2", key, w.pos(c.Pos()), "an additional requirement behind the check for the route's own permission")
+
+						return
 					}
 				}
 
